@@ -10,7 +10,7 @@ scr=$(mktemp -d /tmp/vscr.XXXXXX); ev=$(mktemp -d /tmp/vev.XXXXXX)
 trap 'rm -rf "$scr" "$ev"' EXIT
 git -C /repo archive HEAD | tar -x -C "$scr"
 (cd /repo && git diff HEAD) > "$ev/wt.diff"; [ -s "$ev/wt.diff" ] && (cd "$scr" && patch -p1 -s < "$ev/wt.diff")
-cp "$V/known_findings.json" "$ev/"
+cp "$V/known_findings.json" "$ev/"; mkdir -p "$ev/tables"; cp "$V/tables/anchors.json" "$ev/tables/" 2>/dev/null
 (cd "$V" && ./run.sh build) || exit 2
 for id in "$@"; do "$V/bin/vchk" -repo "$scr" -verif "$ev" -tier "${TIER:-quick}" "$id" 2>&1 | grep -E '\] (VIOLATED|UNDECIDED) ' | sed -E 's/^[^ ]+ //' | sort > "$ev/base.$id"; done
 if ! (cd "$scr" && patch -p1 -s -f < "$patch" >/dev/null); then echo "PATCH DOES NOT APPLY: $patch"; exit 3; fi
